@@ -148,9 +148,10 @@ func checkC13(c *Case) (*Violation, caseInfo) {
 			addr += "#section-2"
 			info.Classes = append(info.Classes, "applyforurl-with-fragment")
 		}
-		other := OptSpec{URL: c.Opts.URL, Algo: 1}.Build()
+		skipVia := shortHash(c.HTML)[1]%2 == 0 // every other page: the caller asks to skip pagination
+		other := OptSpec{URL: c.Opts.URL, Algo: 1, Skip: skipVia}.Build()
 		viaURL := guarded(0, func() (*distiller.Result, error) { return distiller.ApplyForURL(addr, 10*time.Second, other) })
-		_, viaReader := applyHTML(c.HTML, OptSpec{URL: addr, Algo: 1})
+		_, viaReader := applyHTML(c.HTML, OptSpec{URL: addr, Algo: 1, Skip: skipVia})
 		if !viaURL.Panicked && viaURL.Err == nil && viaURL.Res != nil && viaReader.Res != nil {
 			info.Classes = append(info.Classes, "applyforurl-checked")
 			if viaURL.Res.URL != addr {
